@@ -1893,7 +1893,7 @@ class NLDFAuxiliaryPlan(ABC):
                 arg_g.ctypes.data_as(ctypes.c_void_p),
                 self.local_alphas.ctypes.data_as(ctypes.c_void_p),
                 ctypes.c_int(arg_g.size),
-                ctypes.c_int(self.nalpha),
+                ctypes.c_int(nalpha),
             )
             return p, dp
         else:
